@@ -1004,6 +1004,9 @@ def _merge_value(pc, new, cur):
     return ite(pc, new, cur)
 
 
+MERGE_LOG = None  # debugging aid: set to a list to record (function, outcome path conditions) of every merge
+
+
 def merged(fn, name=None, heap_from=None):
     """Wrap fn as a merge point (see module docstring). heap_from(*args) optionally supplies the mergeable heap"""
     fname = name or getattr(fn, "__qualname__", str(fn))
@@ -1055,6 +1058,8 @@ def merged(fn, name=None, heap_from=None):
             ctx.in_merge = False
             ctx.trace, ctx.schedule = saved_trace, saved_sched
             ctx.local_pc = None
+        if MERGE_LOG is not None:
+            MERGE_LOG.append((fname, [str(o[0].sexpr()) for o in outcomes] + [("ret:" + (o[2].e.sexpr() if isinstance(o[2], SR) else repr(type(o[2])))) for o in outcomes]))
         for exname, rc in raises:
             ctx.raise_conds.append((fname, exname, rc))
         if not outcomes:
@@ -1068,6 +1073,7 @@ def merged(fn, name=None, heap_from=None):
             raise Abort("no returning local path in %s" % fname)
         pc_last, post, ret = outcomes[-1]
         restore(heap, post)
+        forget = set()
         for pc, p, r in reversed(outcomes[:-1]):
             for obj, d in zip(heap, p):
                 for k, item in d.items():
@@ -1092,9 +1098,32 @@ def merged(fn, name=None, heap_from=None):
                         if k not in obj.__dict__:
                             raise HarnessError("merge: attribute %s set on one path only" % k)
                         if not _same(item[1], cur):
+                            if k.endswith("_cache_time") or k.endswith("_cache_val"):
+                                # memoisation caches on which the local paths disagree are dropped (key -1 never matches a time
+                                # index): the next call recomputes the memoised value instead of branching on a symbolic cache key
+                                forget.add((id(obj), k[: k.rindex("_cache_") + 7]))
+                                continue
                             obj.__dict__[k] = ite(pc, item[1], cur, guard_a=pc, guard_b=pc_last)
             if not _same(r, ret):
                 ret = _merge_value(pc, r, ret)
+        if MERGE_LOG is not None:
+            ch = []
+            for obj, d0, d1 in zip(heap, snap, snapshot(heap)):
+                for k, it in d1.items():
+                    if it[0] == "a" and k in d0 and d0[k][0] == "a" and d0[k][2].shape == it[2].shape:
+                        for idx in np.ndindex(it[2].shape):
+                            if not _same(d0[k][2][idx], it[2][idx]):
+                                v = it[2][idx]
+                                ch.append((type(obj).__name__, getattr(obj, "name", ""), k, idx, v.e.sexpr() if isinstance(v, (SR, SB)) else repr(v)))
+                    elif it[0] == "s" and (k not in d0 or not _same(d0[k][1], it[1])):
+                        v = it[1]
+                        ch.append((type(obj).__name__, getattr(obj, "name", ""), k, None, v.e.sexpr() if isinstance(v, (SR, SB)) else repr(v)))
+            MERGE_LOG.append(("  changes:" + fname, ch))
+        for oid, prefix in forget:
+            for obj in heap:
+                if id(obj) == oid:
+                    obj.__dict__[prefix + "time"] = -1
+                    obj.__dict__[prefix + "val"] = 0.0
         return ret
 
     wrapper.__wrapped__ = fn
